@@ -704,7 +704,8 @@ def check_c04(run, drv, ncases, start=0):
 
 def main(prop, tier, seed):
     run = common.Run(prop, tier, seed)
-    aud = common.audit(prop, thorough=(tier == "thorough"))
+    # second tie: the closed forms around the moments / directions / peak are re-translated from the source on every run
+    aud = common.audit_with_spec(prop, [prop + "Gen"], thorough=(tier == "thorough"))
     common.use_repo_source()
     thorough = tier == "thorough"
     drv = common.Driver()
